@@ -175,3 +175,38 @@ impl Table {
         self.items.len() - 1
     }
 }
+
+// --- memo table keyed by less than the stored reference depends on (R12.6) ---------------------
+#[derive(Clone, Copy, PartialEq, Eq, Hash)]
+pub struct ExprRef(u32);
+pub struct Memo {
+    items: Vec<(u32, u32)>,
+    by_name: std::collections::HashMap<u32, ExprRef>,
+    by_both: std::collections::HashMap<(u32, u32), ExprRef>,
+}
+impl Memo {
+    fn intern(&mut self, name: u32, tpe: u32) -> ExprRef {
+        self.items.push((name, tpe));
+        ExprRef(self.items.len() as u32 - 1)
+    }
+    pub fn bad_memo(&mut self, name: u32, tpe: u32) -> ExprRef {
+        if let Some(existing) = self.by_name.get(&name) {
+            *existing
+        } else {
+            let reference = self.intern(name, tpe);
+            self.by_name.insert(name, reference);
+            reference
+        }
+    }
+    pub fn good_memo(&mut self, name: u32, tpe: u32) -> ExprRef {
+        let key = (name, tpe);
+        match self.by_both.get(&key) {
+            Some(existing) => *existing,
+            None => {
+                let reference = self.intern(name, tpe);
+                self.by_both.insert(key, reference);
+                reference
+            }
+        }
+    }
+}
